@@ -108,6 +108,8 @@ def run(ck: Check):
                      b"SUMMARY: UndefinedBehaviorSanitizer: undefined-behavior x.c:1:2 in \n", b"Assertion failure: false, at js/src/vm/X.cpp:1\n",
                      b"Traceback (most recent call last):\n  File \"x\", line 1\nSegmentation fault (core dumped)\n",
                      b"TIMED OUT\nEXCEEDED 120 SECONDS\nCRASHED\nexit status 77\n", b"\xff\x00SUMMARY: ThreadSanitizer: data race\n\x00"]
+            from boundaries import mined_texts
+            TEXTS += [t + b"\n" for t in mined_texts()]      # texts a changed tree special-cases (nothing on the unchanged tree)
             for ti, text in enumerate(TEXTS):
                 for c in (0, 1, 3, 77, 134):
                     job(f"says{ti}-err-exit{c}", code=c, err=text, out=b"o\n", use_files=mode)
